@@ -68,3 +68,27 @@ def tolerance(R, err, noise, scale):
 def ill_conditioned(noise, scale):
     """The round-off floor of the difference quotient is not small against the derivative: nothing can be decided."""
     return noise > 1e-3 * max(scale, 1e-300)
+
+
+def confirmed_mismatch(f, x0, analytic, scale, f_abs_err=0.0, extra_tol=0.0):
+    """Second opinion before a mismatch is reported: derivative estimates at THREE scales (1e-4, 1e-5, 1e-6 relative)
+    must each look smooth and agree pairwise within their error bars (a small kink between two scales - e.g. an
+    optimal-transport basis change whose slope jump is far below the smoothness threshold - makes them disagree), and the
+    analytic value must differ from the finest decidable estimate by more than its tolerance."""
+    f0 = f(0.0)
+    if not np.isfinite(f0):
+        return False
+    est = []
+    for h0 in (1e-4, 1e-5, 1e-6):
+        r = _one_step(f, f0, h0 * max(1.0, abs(x0)), f_abs_err)
+        if r is None:
+            return False
+        est.append(r)
+    for a in est:
+        for b in est:
+            if abs(a[0] - b[0]) > 10 * (a[1] + b[1]) + a[2] + b[2] + 1e-7 * max(abs(a[0]), abs(b[0]), scale):
+                return False
+    fine = min(est, key=lambda r: 10 * r[1] + r[2])
+    if ill_conditioned(fine[2], max(scale, abs(fine[0]))):
+        return False
+    return abs(analytic - fine[0]) > tolerance(fine[0], fine[1], fine[2], max(scale, abs(fine[0]))) + extra_tol
